@@ -108,10 +108,34 @@ EMPTY = Seg()
 
 # ------------------------------------------------------------------ model FS
 class Node:
-    def __init__(self):
+    def __init__(self, text=None):
         self.data = EMPTY  # kernel-visible content
         self.synced = 0  # number of bytes durable
         self.nlink = 1
+        self.text = text  # concrete str content of a text file (config.json); None for binary files
+
+
+class TextWriter:
+    """text-mode write handle: the concrete string lands in the node at close"""
+
+    def __init__(self, fs, node):
+        import io as _io
+
+        self.fs, self.node, self.buf, self.closed = fs, node, _io.StringIO(), False
+
+    def write(self, s):
+        return self.buf.write(s)
+
+    def close(self):
+        if not self.closed:
+            self.closed = True
+            self.node.text = self.buf.getvalue()
+
+    def __enter__(self):
+        return self
+
+    def __exit__(self, *a):
+        self.close()
 
 
 class ModelFS:
@@ -295,6 +319,17 @@ class ModelOS:
         self.fs.tick(('mkdir', path))
         self.fs.dirs.add(path)
 
+    def makedirs(self, path, exist_ok=False):
+        path = str(path)
+        if path in self.fs.dirs:
+            if exist_ok:
+                return
+            raise FileExistsError(path)
+        self.fs.tick(('mkdir', path))
+        parts = path.split('/')
+        for n in range(2, len(parts) + 1):
+            self.fs.dirs.add('/'.join(parts[:n]))
+
     def fstat(self, fd):
         return self._fdmap[fd]
 
@@ -328,6 +363,18 @@ def make_open(fs):
 
     def model_open(path, mode='r', **kw):
         path = str(path)
+        if 'b' not in mode and 'x' not in mode and 'a' not in mode:
+            import io as _io
+
+            if 'w' in mode:
+                fs.tick(('create', path))
+                fs.files[path] = Node(text='')
+                return TextWriter(fs, fs.files[path])
+            if path not in fs.files:
+                raise FileNotFoundError(path)
+            if fs.files[path].text is None:
+                raise DataDependence('text-mode read of a binary model file')
+            return _io.StringIO(fs.files[path].text)
         if 'x' in mode:
             if path in fs.files:
                 raise FileExistsError(path)
@@ -624,7 +671,8 @@ class ModelSession:
 class ModelHasher:
     """Accumulates abstract bytes; digest is the registered key of the object if data == whole object."""
 
-    registry = {}  # oid -> key
+    registry = {}  # (hash_type, oid) -> key
+    ht = 'sha256'
 
     def __init__(self):
         self.acc = EMPTY
@@ -639,15 +687,196 @@ class ModelHasher:
     def hexdigest(self):
         ext = self.acc.ext
         if len(ext) == 0:
-            return ModelHasher.registry['empty']
+            return ModelHasher.registry[(self.ht, 'empty')]
         if len(ext) == 1:
             s, lo, hi = ext[0]
             if isinstance(s, tuple) and s[0] == 'obj' and lo == 0 and hi == s[2]:
-                return ModelHasher.registry[s[1]]
-        return 'ffff' + 'bad0' * 15
+                return ModelHasher.registry[(self.ht, s[1])]
+        return ('ffff' + 'bad0' * 15)[: 64 if self.ht == 'sha256' else 40]
 
 
-def install(fs, db, C, U):
+_HASHERS = {}
+
+
+def hasher_cls(hash_type):
+    if hash_type not in ('sha1', 'sha256'):
+        raise ValueError('unknown hash type %r' % (hash_type,))
+    if hash_type not in _HASHERS:
+        _HASHERS[hash_type] = type('ModelHasher_' + hash_type, (ModelHasher,), {'ht': hash_type})
+    return _HASHERS[hash_type]
+
+
+class ModelIO:
+    """``io`` inside container.py: BytesIO over abstract bytes is a MemStream"""
+
+    @staticmethod
+    def BytesIO(data=b''):
+        if isinstance(data, Seg):
+            return MemStream(data)
+        if len(data) == 0:
+            return MemStream(EMPTY)
+        raise DataDependence('BytesIO over concrete bytes')
+
+
+class ModelShutil:
+    def __init__(self, fs):
+        self.fs = fs
+
+    def rmtree(self, path):
+        path = str(path)
+        self.fs.tick(('rmtree', path))
+        for q in [q for q in self.fs.files if q.startswith(path + '/')]:
+            del self.fs.files[q]
+        for q in [q for q in self.fs.dirs if q == path or q.startswith(path + '/')]:
+            self.fs.dirs.discard(q)
+
+
+# ------------------------------------------------------------------ model zlib (deterministic member of the contract)
+class ZErr(Exception):
+    """the model's zlib.error"""
+
+
+ZEMPTY = 8  # length of the compressed stream of the empty string (real zlib: 8 bytes)
+
+
+class ModelZlib:
+    """Replacement for the ``zlib`` module inside disk_objectstore.utils.
+
+    A compressed stream is an opaque token ``('z', src)`` of ``zlen[src]`` bytes (a symbolic length chosen by the
+    harness, independent of the content length) that inflates to the whole object ``src``.  The compressor emits
+    ``early`` bytes at its first ``compress()`` call and the rest at ``flush()``; the decompressor is a deterministic
+    member of the documented zlib contract (see ModelDecompressObj).  Anything that is not the complete stream of a
+    registered object does not inflate (``error``)."""
+
+    error = ZErr
+
+    def __init__(self):
+        self.zlen = {}
+        self.early = 0
+        self.sample_len = 20
+        self.counter = 0
+        self.levels = []
+
+    def total(self, tok):
+        if tok[1] == 'empty':
+            return ZEMPTY
+        return self.zlen[tok[1]]
+
+    def content(self, tok):
+        if tok[1] == 'empty':
+            return EMPTY
+        src = tok[1]
+        return Seg([(src, 0, src[2])])
+
+    def compressobj(self, level=-1, **kw):
+        assert not kw and 1 <= level <= 9, (level, kw)
+        self.levels.append(level)
+        return ModelCompressObj(self)
+
+    def decompressobj(self):
+        return ModelDecompressObj(self)
+
+
+class ModelCompressObj:
+    def __init__(self, zl):
+        self.zl, self.acc, self.emitted, self.tok = zl, EMPTY, 0, None
+
+    def compress(self, data):
+        if not isinstance(data, Seg):
+            if len(data) == 0:
+                return EMPTY
+            raise DataDependence('compressing concrete bytes')
+        first = len(self.acc.ext) == 0
+        self.acc = self.acc + data
+        if first and len(data.ext) > 0:
+            src, lo, _ = data.ext[0]
+            if isinstance(src, tuple) and src[0] == 'obj' and src in self.zl.zlen and lo == 0:
+                z = self.zl.zlen[src]
+                e = min(self.zl.early, z - 1)
+                if e > 0:
+                    self.tok = ('z', src)
+                    self.emitted = e
+                    return Seg([(self.tok, 0, e)])
+        return EMPTY
+
+    def flush(self):
+        ext = self.acc.ext
+        if len(ext) == 0:
+            return Seg([(('z', 'empty'), 0, ZEMPTY)])
+        if len(ext) == 1:
+            src, lo, hi = ext[0]
+            if isinstance(src, tuple) and src[0] == 'obj' and src in self.zl.zlen and lo == 0 and hi == src[2]:
+                if self.tok is None or self.tok == ('z', src):
+                    return Seg([(('z', src), self.emitted, self.zl.zlen[src])])
+        # not the whole of one registered object (e.g. the sample of estimate_compression): an opaque stream
+        self.zl.counter += 1
+        n = self.zl.sample_len
+        return Seg([(('zs', self.zl.counter), 0, n if n > self.emitted else self.emitted + 1)])[self.emitted :]
+
+
+class ModelDecompressObj:
+    """Deterministic inflater: the plain bytes become decodable once all but the last compressed byte were offered
+    (the last byte stands for the checksum trailer); with ``max_length`` the output is cut, the last compressed byte is
+    kept back in ``unconsumed_tail`` until all output was delivered (eof implies all output delivered), everything
+    else offered is consumed.  Data that is not the continuation of one stream raises ``error``."""
+
+    def __init__(self, zl):
+        self.zl = zl
+        self.tok = None
+        self.c = 0
+        self.p = 0
+        self.unconsumed_tail = EMPTY
+        self.unused_data = EMPTY
+        self.eof = False
+
+    def decompress(self, data, max_length=0):
+        if not isinstance(data, Seg):
+            if len(data) == 0:
+                data = EMPTY
+            else:
+                raise DataDependence('concrete compressed data')
+        if self.eof:
+            self.unused_data = self.unused_data + data
+            self.unconsumed_tail = EMPTY
+            return EMPTY
+        avail = 0
+        if len(data.ext) > 0:
+            tok, lo, hi = data.ext[0]
+            if not (isinstance(tok, tuple) and tok[0] == 'z') or (self.tok is not None and tok != self.tok) or lo != self.c:
+                raise ZErr('corrupt')
+            self.tok = tok
+            avail = hi - lo
+        if self.tok is None:
+            self.unconsumed_tail = EMPTY
+            return EMPTY
+        total = self.zl.total(self.tok)
+        content = self.zl.content(self.tok)
+        n = len(content)
+        new_c = self.c + avail
+        if len(data.ext) > 1 and new_c != total:
+            raise ZErr('corrupt')  # the stream is interrupted by foreign bytes
+        decodable = n if new_c >= total - 1 else 0
+        want = decodable - self.p
+        if max_length > 0 and want > max_length:
+            out = max_length
+            k = avail - 1 if (new_c == total and avail >= 1) else avail
+        else:
+            out = want
+            k = avail
+        res = content[self.p : self.p + out]
+        self.c = self.c + k
+        self.p = self.p + out
+        self.eof = self.c == total
+        rest = data[k:]
+        if self.eof:
+            self.unconsumed_tail = EMPTY
+            self.unused_data = rest
+        else:
+            self.unconsumed_tail = rest
+        return res
+
+
+def install(fs, dbs, C, U):
     """Patch module globals of the real modules (no source edits)."""
     mos = ModelOS(fs)
     mopen = make_open(fs)
@@ -659,12 +888,25 @@ def install(fs, db, C, U):
     for M in (C, U):
         M.os = mos
         M.open = mopen
-    U.get_hash_cls = lambda hash_type: ModelHasher
-    C.get_hash_cls = lambda hash_type=None: ModelHasher
+    U.get_hash_cls = hasher_cls
+    C.get_hash_cls = hasher_cls
     C.select, C.delete, C.update, C.text, C.func, C.Obj = select, delete, update, text, Func, MObj
-    C.get_session = lambda path, create=False: ModelSession(db)
+
+    def get_session(path, create=False):
+        path = str(path)
+        if path not in dbs:
+            if not create:
+                raise FileNotFoundError(path)
+            dbs[path] = ModelDB(fs)
+            fs.files[path] = Node()
+        return ModelSession(dbs[path])
+
+    C.get_session = get_session
     C.Engine = Engine
+    C.io = ModelIO
+    C.shutil = ModelShutil(fs)
     U.fcntl = ModelFcntl(fs)
+    U.zlib = fs.zl = ModelZlib()
     return mos, mopen
 
 
